@@ -252,6 +252,26 @@ def r13(rr, repo):
     rr.ob('the clock that stamps requests and ages them against ZMQ_CONN_TIMEOUT is monotonic', mono, za.mod, uses[0] if uses else za.S_poll, witness=f'time_ns is imported as {clock}', key='conn-timeout-clock-monotonic')
 
 
+@rule('C06.R15', "a publisher whose required output is missing resumes when it is back - whatever type the ids have: the consumer's id arrives as the JSON value its configuration held ('FILTER_ID=7' is a "
+                 "number), the required ids as the pieces of a text list ('7', '8'); the publisher compares the two as text on both sides, otherwise the required output is never recognised and the publisher waits for ever")
+def r15(rr, repo):
+    za = anchors(repo)
+    sets = [n for n in walk_scope(za.S_poll) if isinstance(n, ast.Assign) and U(n.targets[0]) == 'client_ids']
+    rr.floor('constructions of the set of connected ids', len(sets), 1, za.mod, za.S_poll)
+    for n in sets:
+        comp = [c for c in ast.walk(n.value) if isinstance(c, (ast.GeneratorExp, ast.SetComp, ast.ListComp))]
+        ok = bool(comp) and isinstance(comp[0].elt, ast.Call) and U(comp[0].elt.func) == 'str'
+        rr.ob('the connected ids are collected as text', ok, za.mod, n, witness=U(n.value)[:120], key='connected-ids-text')
+    stores = [n for n in walk_scope(za.S_init) if isinstance(n, ast.Assign) and U(n.targets[0]) == 'self.outs_required']
+    tests = [n for n in walk_scope(za.S_poll) if isinstance(n, ast.Assign) and U(n.targets[0]) == 'do_send' and 'outs_required' in U(n.value)]
+    as_text = any(any(isinstance(c, ast.Call) and U(c.func) == 'str' for c in ast.walk(n.value)) and any(isinstance(c, (ast.ListComp, ast.GeneratorExp, ast.SetComp)) for c in ast.walk(n.value)) for n in stores) or \
+        (bool(tests) and all(any(isinstance(c, ast.Compare) and isinstance(c.left, ast.Call) and U(c.left.func) == 'str' for c in ast.walk(n.value)) for n in tests))
+    rr.ob('the required ids are text as well (normalised when they are stored, or at the comparison)', as_text, za.mod, (stores or tests or [za.S_init])[0],
+          witness=U((stores or tests)[0])[:160] if (stores or tests) else 'no store of self.outs_required', key='required-ids-text')
+    lone = any(any(isinstance(c, ast.Call) and U(c.func) == 'isinstance' and 'outs_required' in U(c) for c in ast.walk(n.value)) for n in stores)
+    rr.ob("a lone required id that is not a list ('FILTER_OUTPUTS_REQUIRED=7' is a number) is taken as a list of one", lone, za.mod, (stores or [za.S_init])[0], witness=U(stores[0])[:160] if stores else '', key='required-lone-id')
+
+
 @rule('C06.R14', "a restarted relay catches up with its consumer in one step: the id its sender learns from a downstream request (returned by send() also when nothing was published) reaches its own receiver "
                  "as the next expected id, on every return of MQ.send but the timeout - otherwise a relay restarted behind its live consumer discards one frame per id until its own count has caught up (shares C02.R7)")
 def r14(rr, repo):
